@@ -42,7 +42,8 @@ TRUSTED_BASE = [
     "the 1900-line Colang 1.0 line parser (colang_parser.py) is not modelled: its output for generated sources is compared with `V1Struct.compile` of the AST",
 ]
 ASSUMPTIONS = [
-    "structured subset only: user/bot/execute/set/if-else/while/break/continue/do; no when/else-when (branch), labels/goto, check/stop, flow parameters, priorities other than 1.0, extension flows",
+    "kind llm: llm_flows.co + generated self-check style rails; object paths ($config.x.y, $event.x, $generation_options.x.y) are flattened; an unguarded attribute path through None raises in Python but reads None in the model (shipped flows guard)",
+    "kinds fn/rt — structured subset only: user/bot/execute/set/if-else/while/break/continue/do; no when/else-when (branch), labels/goto, check/stop, flow parameters, priorities other than 1.0, extension flows",
     "context values are None/bool/int/str; expressions do not mention $event/$config/$last_user_message/$last_bot_message",
     "every while body starts with a step statement (the real slide does not terminate otherwise)",
     "uids are modelled by a counter (they are never part of a decision)",
